@@ -50,6 +50,11 @@ impl HistProp {
     }
 
     pub fn run(&self, ctx: &RunCtx) -> i32 {
+        self.run_with(ctx, None)
+    }
+
+    /// `extra`: a further generated part of the same property, run after the histories
+    pub fn run_with(&self, ctx: &RunCtx, extra: Option<&dyn Fn(&RunCtx) -> (Stats, Option<Failure>)>) -> i32 {
         // strict replay tier first
         let reg = crate::regress::run_for(&ctx.id, &|v| self.replay_strict(v));
         if let Some((path, msg)) = &reg.violation {
@@ -61,13 +66,18 @@ impl HistProp {
             return 1;
         }
         let cases = ctx.tier.pick(self.cases_quick, self.cases_thorough);
-        let (stats, failure) = run_sharded(
+        let (mut stats, mut failure) = run_sharded(
             ctx,
             "hist",
             cases,
             || hist_strategy((self.cfgs)(), self.max_ops, self.max_prepop),
             |case, st, counting| self.test(case, st, counting),
         );
+        if let (None, Some(extra)) = (&failure, extra) {
+            let (s2, f2) = extra(ctx);
+            stats.merge(s2);
+            failure = f2;
+        }
         let violations = if failure.is_some() { 1 } else { 0 };
         write_evidence(
             ctx,
